@@ -75,6 +75,10 @@ def apply_step(obj, st, via):
         operations.translate(obj, [float(fr(x)) for x in st["vec"]], inplace=True)
     elif a == "sample_size":
         obj.sample_size = st["n"]
+    elif a == "sample_size_dir":
+        setattr(obj, "sample_size_" + "uvw"[st["d"] - 1], st["n"])
+    elif a == "scale":
+        operations.scale(obj, float(fr(st["f"])), inplace=True)
     else:
         raise ValueError("unknown action " + a)
     return info
